@@ -435,6 +435,20 @@ fn core_grid(thorough: bool) -> Vec<Case> {
                 }
             }
         }
+        // Reed-Solomon at the limits of GF(2^8): B + parity = 255, and above (must be refused or work)
+        if scheme == Scheme::Rs28 || scheme == Scheme::Rs28Us {
+            for (b, parity, len) in [(254u16, 1u16, 254usize), (254, 1, 300), (200, 55, 401), (128, 127, 129), (255, 0, 255), (255, 1, 255), (300, 1, 300), (250, 10, 251)] {
+                if scheme == Scheme::Rs28 && b + parity > 255 {
+                    continue; // Oti::new_reed_solomon_rs28 refuses it at construction
+                }
+                for inband_fti in [true, false] {
+                    let mut o = ObjSpec::simple(len, 5);
+                    o.oti = Some(OtiSpec::new(scheme, 1, b, parity, inband_fti));
+                    let s = SessSpec::basic(OtiSpec::new(Scheme::NoCode, 1424, 64, 0, true));
+                    v.push(Case { sess: s, objs: vec![o], receive_once: true, fs: false, rx_variant: 0, direct: false });
+                }
+            }
+        }
         // many source blocks (the SBN field is 8, 16, 24 or 32 bits wide depending on the scheme)
         {
             let (e, b, len) = match scheme {
@@ -467,6 +481,50 @@ fn core_grid(thorough: bool) -> Vec<Case> {
 
 fn session_grid(thorough: bool) -> Vec<Case> {
     let mut v = Vec::new();
+    // a refused object (one byte above the scheme maximum, or Reed-Solomon without parity) between two
+    // accepted ones: the refusal must leave nothing behind
+    for (scheme, e, b) in [(Scheme::RaptorQ, 1u16, 1u16), (Scheme::Rs28, 4, 2)] {
+        for full_fdt in [true, false] {
+            let mut s = SessSpec::basic(OtiSpec::new(Scheme::NoCode, 1424, 64, 0, true));
+            s.full_fdt = full_fdt;
+            let mut objs = Vec::new();
+            for j in 0..3usize {
+                let mut oti = OtiSpec::new(scheme, e, b, 1, j % 2 == 0);
+                let mut len = 7 + j;
+                if j == 1 {
+                    if scheme == Scheme::RaptorQ {
+                        len = max_transfer_length(&oti) as usize + 1;
+                    } else {
+                        oti.parity = 0;
+                    }
+                }
+                let mut o = ObjSpec::simple(len, 60 + j as u8);
+                o.oti = Some(oti);
+                o.location = format!("file:///refused/obj{}.bin", j);
+                objs.push(o);
+            }
+            v.push(Case { sess: s, objs, receive_once: true, fs: false, rx_variant: 0, direct: false });
+        }
+    }
+    // long sessions: 40 objects (more than the 10 FDT instances the receiver keeps, more than any list it
+    // trims), each transferred twice, full FDT: exactly one copy each with receive-once
+    for (multiplex, nq, interleave) in [(3u32, 1usize, 1u8), (1, 2, 2), (0, 1, 3)] {
+        for once in [true, false] {
+            let mut s = SessSpec::basic(OtiSpec::new(Scheme::NoCode, 1424, 64, 0, true));
+            s.interleave = interleave;
+            s.queues = (0..nq).map(|q| (q as u32, multiplex)).collect();
+            let mut objs = Vec::new();
+            for j in 0..40usize {
+                let mut o = ObjSpec::simple(5 + (j % 7), 100 + j as u8);
+                o.oti = Some(pt_of(ALL_SCHEMES[j % 4]));
+                o.prio = (j % nq) as u32;
+                o.count = 2;
+                o.location = format!("file:///long/obj{}.bin", j);
+                objs.push(o);
+            }
+            v.push(Case { sess: s, objs, receive_once: once, fs: false, rx_variant: if once { 0 } else { 1 }, direct: false });
+        }
+    }
     let points: Vec<(OtiSpec, usize)> = vec![
         (OtiSpec::new(Scheme::NoCode, 3, 2, 0, true), 14),
         (OtiSpec::new(Scheme::Rs28, 4, 2, 2, true), 19),
